@@ -405,6 +405,13 @@ struct url : url_base {
   bool set_host_or_hostname(std::string_view input);
 
   /**
+   * The port setter. The host setter, which checks the maximum length of its
+   * whole result, runs it with check_length = false.
+   */
+  template <bool check_length>
+  bool set_port_impl(std::string_view input);
+
+  /**
    * Return true on success.
    * @see https://url.spec.whatwg.org/#concept-ipv4-parser
    */
